@@ -9,6 +9,7 @@ import (
 	"context"
 	"fmt"
 	"io"
+	"math"
 	"net"
 	"strconv"
 	"time"
@@ -157,7 +158,9 @@ func grpcHistory(h *H, prop string, steps int, malformed bool) {
 	g := h.g
 	env := newGrpcEnv()
 	defer env.close()
-	ctxT := func() (context.Context, context.CancelFunc) { return context.WithTimeout(context.Background(), 20*time.Second) }
+	ctxT := func() (context.Context, context.CancelFunc) {
+		return context.WithTimeout(context.Background(), 20*time.Second)
+	}
 	mids := []string{"m1", "m2"}
 	vids := []string{"g", "p", "gp", "v2"}
 	w := &W{}
@@ -185,13 +188,19 @@ func grpcHistory(h *H, prop string, steps int, malformed bool) {
 			cancel()
 			continue
 		}
-		if prop == "C17" && setup && s >= 4 && s < 10 && scenario {
+		if prop == "C17" && setup && s >= 4 && s < 11 && scenario {
 			// provenance scenario: every order of the four timestamps, then a compute, then read everything back
 			tsOf := func() []uint64 { return []uint64{uint64(g.intn(4)) * 25} }
 			switch s {
 			case 4:
 				id, ts := "m1", tsOf()
 				es := []*trustmatrixpb.Entry{{Truster: "0", Trustee: "1", Value: 1}, {Truster: "1", Trustee: "0", Value: 2}, {Truster: "1", Trustee: "2", Value: 1}}
+				if g.intn(3) == 0 {
+					// a non-finite local trust value: the compute below passes validation and fails LATE (the trust
+					// delta is not finite) - the stored vectors must be exactly what they were before the call
+					es[g.intn(3)].Value = math.Inf(1)
+					g.count("scenario:nonfinite-local-trust-late-failure")
+				}
 				_, err := env.tm.Update(ctx, &trustmatrixpb.UpdateRequest{Header: &trustmatrixpb.Header{Id: &id, TimestampQwords: ts}, Entries: es})
 				w.Str("mupdate").Str(id).qwords(ts).Int(len(es))
 				for _, e := range es {
@@ -224,6 +233,9 @@ func grpcHistory(h *H, prop string, steps int, malformed bool) {
 			case 9:
 				w.Str("vget").Str("gp").Bar()
 				emitVGet(env, ctx, w, "gp")
+			case 10:
+				w.Str("vget").Str("g").Bar()
+				emitVGet(env, ctx, w, "g")
 			}
 			cancel()
 			continue
@@ -269,6 +281,10 @@ func grpcHistory(h *H, prop string, steps int, malformed bool) {
 				}
 				if g.intn(6) == 0 {
 					v = -v
+				}
+				if prop == "C17" && g.intn(40) == 0 {
+					v = math.Inf(1)
+					g.count("mupdate:nonfinite-value")
 				}
 				es = append(es, &trustmatrixpb.Entry{Truster: a, Trustee: b, Value: v})
 			}
